@@ -1362,7 +1362,9 @@ static void scenario(const char *params)
     }
 
     struct env_cfg cfg = { .io_menu = (unsigned)param_int(params, "menu", ENV_IO_EAGAIN | ENV_IO_SEQPKT | ENV_IO_ACCEPT),
-                           .sleep_monitor = 0, .only_task = -1 };
+                           /* mon=1 (C05): control-interface processing runs inside the application's own non-blocking
+                              calls, so the sleep monitor applies to the descriptors of the control interface too */
+                           .sleep_monitor = (int)param_int(params, "mon", 0), .only_task = -1 };
     env_init(&cfg);
     env_register_events();
     det_rand_install(1);
